@@ -4,6 +4,7 @@ import (
 	"context"
 	"errors"
 	"fmt"
+	"sync"
 	"time"
 
 	"github.com/ipfs/go-cid"
@@ -39,6 +40,9 @@ func NewErrNotFound(chid datatransfer.ChannelID) error {
 // ErrWrongType is returned when a caller attempts to change the type of implementation data after setting it
 var ErrWrongType = errors.New("Cannot change type of implementation specific data after setting it")
 
+// ErrStopped is returned by operations on channels after Stop
+var ErrStopped = errors.New("channels have been stopped")
+
 // Channels is a thread safe list of channels
 type Channels struct {
 	notifier             Notifier
@@ -46,6 +50,13 @@ type Channels struct {
 	progressCache        *progressCache
 	stateMachines        fsm.Group
 	migrateStateMachines func(context.Context) error
+
+	// operations that reach the state machine group hold stopLk for reading, Stop
+	// holds it for writing: a stopped group would start a state machine for the
+	// channel whose events nothing processes any more, and the caller (and then
+	// every later caller) would block for ever
+	stopLk  sync.RWMutex
+	stopped bool
 }
 
 // ChannelEnvironment -- just a proxy for DTNetwork for now
@@ -91,6 +102,9 @@ func (c *Channels) Start(ctx context.Context) error {
 
 // Stop stops the channel statemachine
 func (c *Channels) Stop(ctx context.Context) error {
+	c.stopLk.Lock()
+	defer c.stopLk.Unlock()
+	c.stopped = true
 	return c.stateMachines.Stop(ctx)
 }
 
@@ -122,6 +136,11 @@ func (c *Channels) CreateNew(selfPeer peer.ID, tid datatransfer.TransferID, base
 		responder = dataSender
 	}
 	chid := datatransfer.ChannelID{Initiator: initiator, Responder: responder, ID: tid}
+	c.stopLk.RLock()
+	defer c.stopLk.RUnlock()
+	if c.stopped {
+		return datatransfer.ChannelID{}, ErrStopped
+	}
 	err := c.stateMachines.Begin(chid, &internal.ChannelState{
 		SelfPeer:   selfPeer,
 		TransferID: tid,
@@ -169,6 +188,11 @@ func (c *Channels) InProgress() (map[datatransfer.ChannelID]datatransfer.Channel
 // Returns datatransfer.EmptyChannelState if there is no channel with that id
 func (c *Channels) GetByID(ctx context.Context, chid datatransfer.ChannelID) (datatransfer.ChannelState, error) {
 	var internalChannel internal.ChannelState
+	c.stopLk.RLock()
+	defer c.stopLk.RUnlock()
+	if c.stopped {
+		return nil, ErrStopped
+	}
 	err := c.stateMachines.GetSync(ctx, chid, &internalChannel)
 	if err != nil {
 		return nil, NewErrNotFound(chid)
@@ -444,6 +468,11 @@ func (c *Channels) checkEvents(chid datatransfer.ChannelID, evt datatransfer.Eve
 }
 
 func (c *Channels) send(chid datatransfer.ChannelID, code datatransfer.EventCode, args ...interface{}) error {
+	c.stopLk.RLock()
+	defer c.stopLk.RUnlock()
+	if c.stopped {
+		return ErrStopped
+	}
 	err := c.checkChannelExists(chid, code)
 	if err != nil {
 		return err
